@@ -74,6 +74,9 @@ JudgeAdjust(M, ev, F, wt) ==
   IN
   IF ~(IsUnitNetwork(M) /\ wt.hasopt /\ F # {} /\ (ev.refgiven => ev.ref \in wt.argopt))
   THEN Res("out", FALSE, {}, {}, <<>>)
+  \* a reaction with an infinite bound leaves ROOM without a valid big-M for its switch: the documented refusal
+  ELSE IF "refuse" \in DOMAIN ev /\ ev.refuse
+  THEN Res("in", TRUE, Fails("refuses_infinite_bounds", ev.outcome = "exc:ValueError"), {"infinite_bound"}, <<>>)
   ELSE
   LET dec == Decidable_adjust(M)
       feasible == Fails("bounds", FxInBoundsOn(KO, ev.v, ev.sub)) \cup Fails("balance", FxBalanced(KO, ev.v))
